@@ -13,7 +13,16 @@ import (
 	"strings"
 )
 
+// InvWriter: every function that creates or writes a value of the named struct type must be under contract
+// for the listed properties (the representation invariant of the type is stated in those contracts).
+type InvWriter struct {
+	Type  string
+	Props []string
+	Pos   string
+}
+
 type Clause struct {
+	COnly bool // speaks about the C-side representation (struct fields): not used at cgo call sites
 	Slow  bool // only checked in the thorough tier (takes longer than the quick per-obligation budget)
 	Label string
 	Src   string
@@ -43,6 +52,7 @@ type FuncSpec struct {
 	AssignsAll bool
 	Loops      map[int]*LoopSpec
 	PanicsIff  []Clause
+	Assumed    []Clause // postconditions about ghost state that callers may assume but the body check cannot establish
 	Inline     bool
 	Trusted    bool
 	Pure       bool
@@ -51,6 +61,8 @@ type FuncSpec struct {
 	Line       int
 	Used       bool
 	TouchesMaps bool
+	DeadReturns map[int]bool // returns (by ordinal) that are unreachable under the callees' contracts
+	NoBody     bool // C contract used at call sites only (body is BLST / not translated)
 	Tags       string // extra build tags of the configuration in which the body is verified
 }
 
@@ -72,6 +84,7 @@ type SpecDB struct {
 	Preds  map[string]*Pred
 	Ghosts []GhostDecl
 	HeapTypes []string // named struct types that only ever live in their own heap objects
+	InvWriters []InvWriter
 	Globals []Clause   // facts about package-level variables assumed at every function entry
 	GlobalPkg []string
 	Errors []string
@@ -177,6 +190,8 @@ func (db *SpecDB) LoadFile(path string, pkg string) error {
 					if i < len(ws) {
 						cur.Tags = ws[i]
 					}
+				case "nobody":
+					cur.NoBody = true
 				case "inline":
 					cur.Inline = true
 				case "trusted":
@@ -192,6 +207,17 @@ func (db *SpecDB) LoadFile(path string, pkg string) error {
 					fail("unknown option %q", ws[i])
 				}
 			}
+		case "assumes":
+			if cur == nil {
+				fail("assumes outside func")
+				continue
+			}
+			c, err := parseClause(rest, pos)
+			if err != nil {
+				fail("%v", err)
+				continue
+			}
+			cur.Assumed = append(cur.Assumed, c)
 		case "requires", "ensures", "panics-iff":
 			if cur == nil {
 				fail("%s outside func", word)
@@ -313,6 +339,32 @@ func (db *SpecDB) LoadFile(path string, pkg string) error {
 				continue
 			}
 			db.Preds[p.Name] = p
+		case "dead-return":
+			if cur == nil {
+				fail("dead-return outside func")
+				continue
+			}
+			nstr, _ := splitWord(rest)
+			n, err := strconv.Atoi(nstr)
+			if err != nil {
+				fail("dead-return ordinal: %v", err)
+				continue
+			}
+			if cur.DeadReturns == nil {
+				cur.DeadReturns = map[int]bool{}
+			}
+			cur.DeadReturns[n] = true
+		case "invariant-writers":
+			ws := strings.Fields(rest)
+			if len(ws) < 3 || ws[1] != "props" {
+				fail("invariant-writers <Type> props <Cxx>...")
+				continue
+			}
+			tn := ws[0]
+			if !strings.Contains(tn, ".") && pkg != "" {
+				tn = pkg + "." + tn
+			}
+			db.InvWriters = append(db.InvWriters, InvWriter{Type: tn, Props: ws[2:], Pos: pos})
 		case "heaptype":
 			tn := strings.TrimSpace(rest)
 			if !strings.Contains(tn, ".") && pkg != "" {
@@ -367,6 +419,10 @@ func parseClause(s, pos string) (Clause, error) {
 	if strings.HasPrefix(s, "[") {
 		j := strings.Index(s, "]")
 		c.Label = s[1:j]
+		if strings.HasSuffix(c.Label, " c-only") {
+			c.Label = strings.TrimSuffix(c.Label, " c-only")
+			c.COnly = true
+		}
 		if strings.HasSuffix(c.Label, " slow") {
 			c.Label = strings.TrimSuffix(c.Label, " slow")
 			c.Slow = true
